@@ -29,12 +29,14 @@ returns on the first `Err`). Read from quick-xml's sources:
   everything up to `=` or white space), optional white space, `=`, optional white space, a quoted
   value (raw bytes up to the same quote; not unescaped here). No white space is needed between
   attributes. Any syntax error (no `=`, no value, unquoted value, missing closing quote) surfaces
-  when the iteration reaches it: the parser's `a?` turns it into `Err(Parse)` – exactly what a
-  REPEATED key does in `getAttrAux`/`lineAttrs`. The model therefore encodes "syntax error from
-  here on" as the pair of attributes `([], [])`, `([], [])`: an empty key cannot come from a real
-  attribute (a key has at least one byte) and is never looked up, and its second occurrence is a
-  duplicate. (`Duplicated` itself is found by the model's own `seen` list: the tokenizer keeps
-  repeated keys.)
+  when the iteration reaches it: the parser's `a?` turns it into `Err(Parse)`. The model encodes
+  "syntax error here" as the attribute `([], [])` (`Jacoco.isAttrErr`): an empty key cannot come
+  from a real attribute (a key has at least one byte), and `getAttrAux`/`lineAttrs` answer `Parse`
+  when they reach it; nothing after it is produced (the parser returns at the first `Err`; the one
+  caller that swallows the error, `sourceFileOf`, does not continue the iteration either).
+  Since /repo ae885a6 the parser iterates `with_checks(false)`: a REPEATED key is no longer an
+  error (`AttrError::Duplicated` is the only thing that switch turns off; every syntax error above
+  is still reported); the tokenizer keeps repeated keys, first match / last `<line>` value wins.
 
 White space is quick-xml's `is_whitespace` (blank, TAB, LF, CR) = `CobBytes.isWs`; names of
 well-formed documents are `CobBytes.isName` (both imported from the Cobertura byte layer).
@@ -50,8 +52,8 @@ open Grcov.Writers.CobBytes (isWs isName isNameByte)
 
 /-! ## attributes -/
 
-/-- "the attribute iterator fails from here on" (see the header) -/
-def attrErr : List Attr := [([], []), ([], [])]
+/-- "the attribute iterator returns `Err` here" (see the header) -/
+def attrErr : List Attr := [([], [])]
 
 /-- `IterState::next` repeated over the bytes after the element name -/
 def splitAttrs : Nat → List Nat → List Attr
